@@ -406,7 +406,7 @@ func c07History(run *common.Run, idx int, store string) {
 						}
 					}
 				case in.Kind == "READMEDIA":
-					rsp := cl.GetMedia(r.Intn(1), B, name)
+					rsp := cl.GetMedia(0, B, name)
 					out.Class = c07Class(rsp)
 					if rsp.OK() {
 						out.Exists = true
